@@ -42,3 +42,32 @@ Proof.
   split; [|intros ->; reflexivity].
   destruct xs as [|x xs] using rev_ind; [reflexivity|]. rewrite py_last_app. discriminate.
 Qed.
+
+(* xs[k:] *)
+Definition py_slice_from {A} (xs : list A) (k : Z) : list A :=
+  if (0 <=? k)%Z then skipn (Z.to_nat k) xs else skipn (length xs - Z.to_nat (- k)) xs.
+(* xs[i] for a non-negative index (negative indices are translated by py_last only) *)
+Definition py_index {A} (xs : list A) (i : Z) : option A := if (0 <=? i)%Z then nth_error xs (Z.to_nat i) else None.
+
+(* for x in xs: BODY   where BODY updates a state and either goes on (true: fell through or `continue`) or leaves the loop
+   (false: `break`); None = raised *)
+Fixpoint py_for_state {A S} (body : A -> S -> option (S * bool)) (xs : list A) (s : S) : option S :=
+  match xs with
+  | [] => Some s
+  | x :: r => match body x s with
+              | None => None
+              | Some (s', true) => py_for_state body r s'
+              | Some (s', false) => Some s'
+              end
+  end.
+
+(* while TEST: s = STEP s   with explicit fuel (None when the fuel runs out: excluded by the tie theorems) *)
+Fixpoint py_while {S} (fuel : nat) (test : S -> option bool) (step : S -> S) (s : S) : option S :=
+  match fuel with
+  | O => None
+  | Datatypes.S f => match test s with
+                     | None => None
+                     | Some false => Some s
+                     | Some true => py_while f test step (step s)
+                     end
+  end.
